@@ -74,7 +74,7 @@ var props = map[string]propCfg{
 	"C20": {
 		Quick: 20 * time.Second, Thorough: 8 * time.Minute, Level: "exploration",
 		Rule:        "one case = one seeded two-task session over p2p.Conn on a simulated pipe: vole.NewSender/NewReceiver + 1..3 Mul calls (vector lengths from {1,2,7..9,63..65,511..513,1023..1025,2000,random<=2000}; moduli P-256 prime, 2^255-19, 2^256-189, P-224 prime, 2, 3, 65537, random odd <=256 bits; elements 0, 1, p-1, random), or 1..6 bmr.FxSend/FxReceive or FxkSend/FxkReceive over CO/COT/COT-malicious for all (a,b) and random/zero strings; capacity, fragmentation, latency and schedule from the tape; oracle = math/big reference; non-trivial = more than 2 task switches; distinct = distinct SHA-256 of the event log",
-		Components:  map[string]string{"vole.Sender/Receiver.Mul, bmr.Fx*/Fxk*, ot.IKNP/CO/COT, p2p.Conn": "real code", "IKNP base OTs": "real Chou-Orlandi in 1/3 of vole runs, stub otherwise", "transport": "simulated pipe"},
+		Components:  map[string]string{"vole.Sender/Receiver.Mul, bmr.Fx*/Fxk*, ot.IKNP/CO/COT, p2p.Conn": "real code", "IKNP base OTs": "real Chou-Orlandi in 1/3 of vole runs, stub otherwise", "transport": "simulated pipe; in a fifth of the cases the library's p2p.Pipe / ot.NewPipe (real code) over the simulator's io.Pipe (simpipe)"},
 		Assumptions: stdAssumptions,
 	},
 	"C15": {
@@ -86,7 +86,7 @@ var props = map[string]propCfg{
 	"C06": {
 		Quick: 25 * time.Second, Thorough: 10 * time.Minute, Level: "exploration",
 		Rule:        "one case = one seeded sender/receiver session: scenario in {ot.OT Send/Receive for CO, RSA-1024, COT, COT-malicious, ROT, ROT-malicious (shared and non-shared, Init repeated on shared instances); raw IKNP label form (semi-honest and malicious); raw IKNP packed-bit form; pure Chou-Orlandi helpers on P-224/P-256/P-384}, 1..4 consecutive batches on one instance with sizes from {1..9, 15..17, 63..65, 127..129, 255..257, 511..513, 1023..1025, 1535..1537, 2047..2049, random<=2100}, choice vectors all-0/all-1/alternating/last-only/random, transport p2p.Conn on a simulated pipe (capacity, fragmentation, latency) or a message-level ot.IO, schedule from the tape; non-trivial = more than 2 task switches; distinct = distinct SHA-256 of the event log",
-		Components:  map[string]string{"ot.CO/RSA/COT/ROT/IKNP/MITCCRH, co_helpers, p2p.Conn": "real code", "IKNP base OTs": "real Chou-Orlandi in a share of runs, otherwise a stub that sends both labels in clear (simio.ClearOT)", "transport": "simulated pipe or message-level ot.IO", "crypto/rand": "seeded DRBG"},
+		Components:  map[string]string{"ot.CO/RSA/COT/ROT/IKNP/MITCCRH, co_helpers, p2p.Conn": "real code", "IKNP base OTs": "real Chou-Orlandi in a share of runs, otherwise a stub that sends both labels in clear (simio.ClearOT)", "ot.NewSender/NewReceiver, ot.NewCOSender/NewCOReceiver (step-by-step transfers)": "real code, messages carried by the harness", "transport": "simulated pipe, message-level ot.IO, or the library's ot.NewPipe (real code) over the simulator's io.Pipe (simpipe)", "crypto/rand": "seeded DRBG"},
 		Assumptions: stdAssumptions,
 	},
 	"C16": {
@@ -98,7 +98,7 @@ var props = map[string]propCfg{
 	"C02": {
 		Quick: 25 * time.Second, Thorough: 10 * time.Minute, Level: "exploration",
 		Rule:        "one case = one seeded two-party session circuit.Garbler vs circuit.Evaluator over two p2p.Conn on a simulated pipe: generated circuit (1..24-bit inputs, one case in ten with a 0-bit argument for one party, 1..4 outputs of width 1..17, 0..400 gates of all five kinds, fan-out, same wire twice, INV-only/XNOR-heavy/OR-heavy shapes), inputs (zero/ones/single-bit/random), OT in {CO, COT, COT-malicious, RSA-1024, RSA-2048(thorough)}, per-direction capacity (0=rendezvous..unbounded), fragmentation, latency and the schedule of the 4 tasks from the tape; oracle = harness truth-table evaluator; non-trivial = more than 2 task switches; distinct = distinct SHA-256 of the event log (decisions, transport events, payload bytes)",
-		Components:  map[string]string{"circuit.Garbler/Evaluator/Garble/Eval, p2p.Conn, ot.CO/COT/RSA/IKNP": "real code", "transport": "simulated pipe", "crypto/rand": "seeded AES-CTR DRBG per party", "reference": "harness truth-table evaluator (gen.Eval)"},
+		Components:  map[string]string{"circuit.Garbler/Evaluator/Garble/Eval, p2p.Conn, ot.CO/COT/RSA/IKNP": "real code", "transport": "simulated pipe; one plain session in eight over the library's p2p.Pipe (real code) on the simulator's io.Pipe (simpipe)", "crypto/rand": "seeded AES-CTR DRBG per party", "reference": "harness truth-table evaluator (gen.Eval)"},
 		Assumptions: stdAssumptions,
 	},
 	"C19": {
@@ -110,7 +110,7 @@ var props = map[string]propCfg{
 	"C11": {
 		Quick: 20 * time.Second, Thorough: 8 * time.Minute, Level: "exploration",
 		Rule:        "one case = one seeded run of two p2p.Conn over a simulated pipe: typed send sequences per direction (0..40 ops, payload sizes around 0/16/64Ki/1Mi/3Mi), flush placement, per-direction capacity (0=rendezvous..unbounded), read fragmentation (1 byte..whole), latency and the schedule of the 8 tasks all drawn from the tape; a third of the cases shrink the connection's buffers through build-time knobs of the overlay (write buffers of 16..4096 bytes, 1..5 of them, read window of 16..65536 bytes; default = the shipped 64 KiB x 3 / 1 MiB); one case in six is a fault case: one Write of A's transport fails once at a tape-chosen offset without moving anything and the only clause is that A is told by some Send*/Flush or by Close; non-trivial = at least one operation and more than 2 task switches; distinct = distinct SHA-256 of the run's event log (every scheduling decision, transport event and payload byte)",
-		Components:  map[string]string{"p2p.Conn (incl. writer goroutine, buffer ring)": "real code (rewritten go/chan/atomic)", "transport": "simulated pipe (simnet)", "goroutine scheduling, channels": "simulator", "receiver model": "FIFO of typed values (harness)"},
+		Components:  map[string]string{"p2p.Conn (incl. writer goroutine, buffer ring)": "real code (rewritten go/chan/atomic)", "transport": "simulated pipe (simnet); p2p.Pipe (real code) over the simulator's io.Pipe in a sixth of the fault-free cases; p2p.Network-made Conns in a fifth", "goroutine scheduling, channels": "simulator", "receiver model": "FIFO of typed values (harness)"},
 		Assumptions: stdAssumptions,
 	},
 }
